@@ -370,9 +370,9 @@ example : (phylipRead false (phylipCfg none) (splitLines (str "2147483648 4\n"))
 /-- the second alignment is left for the next read: the pushed-back header line and what follows it -/
 example : (phylipRead false (phylipCfg none) (splitLines exPhy2)).2 = [str " 1 3", str "c         ACG"] := by decide +kernel
 example : (phylipRead false (phylipCfg none) (phylipRead false (phylipCfg none) (splitLines exPhy2)).2).1 matches .ok _ := by decide +kernel
-/-- digital mode ignores the digits '0'..'8' but NOT '9' (`for (sym = '0'; sym < '9'; sym++)`); text mode ignores all ten -/
+/-- digital mode ignores all ten digits, as text mode does (fix 1a55a73; before it `sym < '9'` left '9' out) -/
 example : (phylipRead false (phylipCfg (some abcDna)) (splitLines (str "1 4\nx         AC8GT\n"))).1 matches .ok _ := by decide +kernel
-example : (phylipRead false (phylipCfg (some abcDna)) (splitLines (str "1 4\nx         AC9GT\n"))).1 matches .eformat _ := by decide +kernel
+example : (phylipRead false (phylipCfg (some abcDna)) (splitLines (str "1 4\nx         AC9GT\n"))).1 matches .ok _ := by decide +kernel
 example : (phylipRead false (phylipCfg none) (splitLines (str "1 4\nx         AC9GT\n"))).1 matches .ok _ := by decide +kernel
 example : phylipCfg (some abcAmino) ∈ phylipConfigs := by simp [phylipConfigs]
 
